@@ -295,8 +295,9 @@ def run_case(variant, stack, src, dst, fault, policy=("whole",), blocking=None):
             return obs
         edges = vendor_edges(dev, variant)
         k = fault["kind"]
-        dev.secret = None if k in ("nopw", "nopw_blank") else SECRET
-        d.auth_secondary = {"wrongpw": "wr0ng", "absentpw": "", "nopw_blank": ""}.get(k, SECRET)
+        # emptypw: the device asks for a password and its (empty) enable secret is the empty answer; no auth_secondary
+        dev.secret = None if k in ("nopw", "nopw_blank") else "" if k == "emptypw" else SECRET
+        d.auth_secondary = {"wrongpw": "wr0ng", "absentpw": "", "nopw_blank": "", "emptypw": ""}.get(k, SECRET)
         sets = {"refuse": dev.refuse, "ignore": dev.ignore, "mute": dev.mute}
         for (a, b) in fault.get("edges", []):
             for line in edges.get((mode_of(variant, a), mode_of(variant, b)), []):
@@ -311,7 +312,7 @@ def run_case(variant, stack, src, dst, fault, policy=("whole",), blocking=None):
             exc = type(e).__name__
         obs.update(exc=exc, mode=dev.mode, belief=d._current_priv_level.name,
                    log=[(m, bytes(l)) for (m, l, _) in dev.log[n0:]], hidden=[bytes(x) for x in dev.hidden_lines[h0:]],
-                   auth_secondary=d.auth_secondary, asked=dev.secret is not None)
+                   auth_secondary=d.auth_secondary, asked=dev.secret is not None, secret=dev.secret)
         return obs
     finally:
         r.close()
@@ -441,14 +442,20 @@ def run_calls(variant, stack, hist, policy=("whole",)):
     lines the device executed during the call."""
     sd = _simdevice()
     warnings.simplefilter("ignore")
-    dev = make_device(variant, vary=hist.get("vary"), tries=hist.get("tries", 3), secret=SECRET)
+    # hist["retable"] = {how, before}: driver and device are built with the table `before`, the driver navigates to
+    # hist["start"] under it, THEN the user puts `variant` (T2) in force on the live driver (previous_priv of some levels
+    # edited in place / the privilege_levels dict replaced, update_privilege_levels()); the calls are judged against T2
+    rt = hist.get("retable")
+    v0 = _variant_from_scenario({"variant": variant["label"], "user_table": rt["before"]}) if rt else variant
+    dev = make_device(v0, vary=hist.get("vary"), tries=hist.get("tries", 3), secret=SECRET)
     dev.start()
-    d = build_driver(variant, stack, dev, policy)
+    d = build_driver(v0, stack, dev, policy)
     r = sd.Runner(stack)
     obs = {"setup_exc": None, "calls": []}
     try:
-        names, order, cls = observe_tables(variant, d, dev)
-        obs.update(names=names, order=order, cls=cls)
+        if not rt:
+            names, order, cls = observe_tables(variant, d, dev)
+            obs.update(names=names, order=order, cls=cls)
         try:
             gcall(r, d.acquire_priv, hist["start"])
         except BaseException as e:  # noqa
@@ -457,6 +464,10 @@ def run_calls(variant, stack, hist, policy=("whole",)):
         if dev.mode != mode_of(variant, hist["start"]) or d._current_priv_level.name != hist["start"]:
             obs["setup_exc"] = "setup ended in %s believing %s" % (dev.mode, d._current_priv_level.name)
             return obs
+        if rt:
+            put_in_force(d, dev, variant, rt["how"])
+            names, order, cls = observe_tables(variant, d, dev)
+            obs.update(names=names, order=order, cls=cls)
         edges = vendor_edges(dev, variant)
         for c in hist["calls"]:
             fault = dict(c["fault"])
@@ -639,6 +650,14 @@ def random_tree(rng, kind):
     if kind == "ambiguous":
         i = rng.choice([i for i in range(n) if parent[i] is not None])
         prompt_tag[i] = prompt_tag[parent[i]]
+    return tree_variant(kind, parent, ids, auth, prompt_tag)
+
+
+def tree_variant(kind, parent, ids, auth, prompt_tag):
+    """the variant (driver table in dict order `ids` + the matching vendor CLI) of the tree `parent`"""
+    n = len(parent)
+    name = lambda i: "m%d" % i
+    kids = {i: [c for c in range(n) if parent[c] == i] for i in range(n)}
     levels = []
     for i in ids:
         levels.append((name(i), "" if parent[i] is None else name(parent[i]), "go-" + name(i), "leave-" + name(i), auth[i],
@@ -656,6 +675,71 @@ def random_tree(rng, kind):
     return {"label": "user-%s-%d" % (kind, n), "platform": "user", "sessions": [], "names": [l[0] for l in levels],
             "levels": levels, "vendor": vendor, "kind": kind, "parent": parent,
             "rows": [(None if l[1] == "" else [x[0] for x in levels].index(l[1]), l[2].encode(), l[3].encode(), l[4]) for l in levels]}
+
+
+def retabled(rng, v1, how):
+    """T2: the table the user puts in force on the LIVE driver built with v1 (same level names, patterns and commands; the
+    tree differs).  how = "edit": one or two levels get another previous_priv (any level outside their own subtree);
+    "replace": a fresh random tree over the same levels, in another dict order, password levels drawn again"""
+    parent = list(v1["parent"])
+    n = len(parent)
+    ids = [int(x[1:]) for x in v1["names"]]
+    auth = {int(l[0][1:]): l[4] for l in v1["levels"]}
+    auth = [auth[i] for i in range(n)]
+
+    def subtree(c, par):
+        out, todo = {c}, [c]
+        while todo:
+            x = todo.pop()
+            for k in range(n):
+                if par[k] == x and k not in out:
+                    out.add(k)
+                    todo.append(k)
+        return out
+    if how == "edit":
+        for _ in range(rng.choice([1, 1, 2])):
+            cand = [(c, p) for c in range(1, n) for p in range(n) if p != parent[c] and p not in subtree(c, parent)]
+            if cand:
+                c, p = rng.choice(cand)
+                parent[c] = p
+    else:
+        while parent == list(v1["parent"]):
+            parent = [None] + [rng.randrange(i) for i in range(1, n)]
+        ids = list(ids)
+        rng.shuffle(ids)
+        auth = [i != 0 and rng.random() < 0.3 for i in range(n)]
+    return tree_variant("tree", parent, ids, auth, {i: "m%d" % i for i in range(n)})
+
+
+def put_in_force(d, dev, v2, how):
+    """the user changes the privilege table of the live driver and calls update_privilege_levels(); the device's CLI is v2's"""
+    from scrapli.driver.network.base_driver import PrivilegeLevel
+    if how == "edit":
+        for n, prev, esc, de, auth, pat in v2["levels"]:
+            if d.privilege_levels[n].previous_priv != prev:
+                d.privilege_levels[n].previous_priv = prev
+    else:
+        d.privilege_levels = {n: PrivilegeLevel(pattern=pat, name=n, previous_priv=prev, deescalate=de, escalate=esc, escalate_auth=auth,
+                                                escalate_prompt=r"^[pP]assword:\s?$") for n, prev, esc, de, auth, pat in v2["levels"]}
+    d.update_privilege_levels()
+    dev.t = v2["vendor"]
+
+
+def pair_walk(rng, names, start):
+    """targets of a walk from `start` whose consecutive calls cover every ordered pair of levels"""
+    todo = [(a, b) for a in names for b in names if a != b]
+    rng.shuffle(todo)
+    cur, out = start, []
+    while todo:
+        nxt = [p for p in todo if p[0] == cur]
+        if not nxt:
+            cur = todo[0][0]
+            out.append(cur)
+            continue
+        todo.remove(nxt[0])
+        cur = nxt[0][1]
+        out.append(cur)
+    return out
 
 
 def table_term(variant):
@@ -680,7 +764,7 @@ def case_term(variant, src, dst, fault, obs, belief0=None):
     pairs = lambda es: coq_list(["(%d,%d)%%nat" % (ix(a), ix(b)) for (a, b) in es])
     stuck = pairs(fault.get("edges", [])) if k in ("refuse", "ignore") else "[]"
     mute = pairs(fault.get("edges", [])) if k == "mute" else "[]"
-    secret = "(Some %s%%N)" % coq_bytes(SECRET.encode()) if obs["asked"] else "None"
+    secret = "(Some %s%%N)" % coq_bytes((obs.get("secret") if obs.get("secret") is not None else SECRET).encode()) if obs["asked"] else "None"
     inv = {mode_of(variant, n): i for i, n in enumerate(names)}
     log = coq_list(["(%d%%nat, %s%%N)" % (inv[m], coq_bytes(l)) for (m, l) in obs["log"]])
     hid = coq_list(["%s%%N" % coq_bytes(h) for h in obs["hidden"]])
@@ -738,6 +822,10 @@ Definition chk_any (c : case_t + calls_t) : bool := match c with inl x => chk x 
 
 def faults_for(variant, src, dst, edges, rng, thorough, on_route):
     fs = [{"kind": "none"}, {"kind": "nopw"}, {"kind": "nopw_blank"}, {"kind": "wrongpw"}, {"kind": "absentpw"}]
+    if set(auth_level_edges(variant)) & set(on_route):
+        # the device asks for a password on the route and its enable secret is EMPTY (just return is accepted), the
+        # driver has no auth_secondary: a compliant device - acquire_priv must arrive (elsewhere the same as "none")
+        fs.append({"kind": "emptypw"})
     route_e = [e for e in edges if e in on_route]
     off_e = [e for e in edges if e not in on_route]
     for e in route_e:
@@ -1007,13 +1095,32 @@ def explore_calls(rep, variant, stacks, rng, factor, acc, counts, hists=None, po
                     if not sig:     # a listed finding's signature: the later calls are still judged
                         break
                 failed_before = failed_before or c["exc"] is not None
-            rep.case(("calls", variant["label"], stack, json.dumps(hist, sort_keys=True)), nontrivial=judged_after_failure > 0)
+            rep.case(("calls", variant["label"], stack, json.dumps(hist, sort_keys=True)),
+                     nontrivial=judged_after_failure > 0 or "retable" in hist)
             for kk in ("calls:history:" + hist["kind"], "calls:tries:%d" % hist.get("tries", 3), "calls:length:%d" % len(hist["calls"]),
                        "calls:successes-judged-after-a-failure:%s" % ("0" if not judged_after_failure else "1+"), "stack:" + stack):
                 d[kk] = d.get(kk, 0) + 1
             if len(obs["calls"]) == len(hist["calls"]):
                 acc["seq_terms"].append(calls_term(variant, hist, obs))
                 acc["seq_cases"].append((sc, obs, variant))
+
+
+def explore_retable(rep, stacks, rng, thorough, factor, acc, count):
+    """construct with table T1 -> navigate to a level -> the user edits previous_priv of one or two levels / replaces the
+    table by T2 on the LIVE driver -> update_privilege_levels() -> a walk of acquire_priv calls covering every ordered pair
+    of T2, every call judged on its own against T2 (the table in force; the device's CLI is T2's)"""
+    for i in range(count):
+        v1 = random_tree(rng, "tree")
+        while not 3 <= len(v1["names"]) <= (6 if thorough else 5):
+            v1 = random_tree(rng, "tree")
+        how = "edit" if i % 2 == 0 else "replace"
+        v2 = retabled(rng, v1, how)
+        v2["label"] = "user-retable-%d" % len(v2["names"])
+        start = rng.choice(v1["names"]) if rng.random() < 0.75 else "m0"
+        hist = {"kind": "retable-" + how, "start": start, "tries": 3,
+                "retable": {"how": how, "before": {"levels": v1["levels"], "kind": "tree", "parent": v1["parent"]}},
+                "calls": [{"dst": t, "fault": {"kind": "none"}} for t in pair_walk(rng, v2["names"], start)]}
+        explore_calls(rep, v2, stacks if i % 4 < 2 else (rng.choice(stacks),), rng, factor, acc, None, hists=[hist])
 
 
 def obs_json(obs):
@@ -1150,6 +1257,7 @@ def run(rep):
         if len(v["names"]) > 1:
             explore_histories(rep, v, (rng.choice(["sync", "async"]),), rng, False, factor, acc, budget=12 if thorough else 3)
             explore_calls(rep, v, (rng.choice(["sync", "async"]),), rng, factor, acc, (3, 2, 1, 3) if thorough else (1, 1, 0, 1))
+    explore_retable(rep, ("sync", "async"), rng, thorough, factor, acc, 24 if thorough else 8)
     for i in range(40 if thorough else 10):
         v = random_tree(rng, ["forest", "cycle", "ambiguous"][i % 3])
         pairs = [(a, b) for a in v["names"] for b in v["names"] if a != b]
@@ -1205,7 +1313,10 @@ def run(rep):
                 "send_configs with fillers, acquire_priv of the remembered / another level); histories of 3..12 acquire_priv calls on one "
                 "connection (device refusing / ignoring a route transition for whole calls then cooperating, wrong / absent then corrected "
                 "auth_secondary with a 1/2/3-attempt password dialogue, fault-free walks longer than one call's bound, random mixes), every "
-                "call judged on its own; "
+                "call judged on its own; histories 'driver built with tree T1, level reached, previous_priv of 1-2 levels edited in place / "
+                "privilege_levels replaced by another tree T2 over the same levels, update_privilege_levels(), walk of acquire_priv calls over "
+                "every ordered pair of T2' judged against T2; fault emptypw = the device asks for a password, its enable secret is empty, "
+                "no auth_secondary (must arrive); "
                 "non-trivial = source != target; distinct = (variant, stack, pair, fault)")
     for (sc, obs, v) in acc["cases"][:1] + acc["cases"][len(acc["cases"]) // 2:len(acc["cases"]) // 2 + 2]:
         rep.sample({"scenario": {k: sc[k] for k in ("variant", "stack", "src", "dst", "fault")}, "exc": obs["exc"], "final_mode": obs["mode"],
@@ -1415,7 +1526,14 @@ MANIFEST = {
             "passwords - so later calls begin inside a pending dialogue -; more fault-free calls than one call's bound has attempts; "
             "random mixes), each call compared with the model's run_calls and judged ON ITS OWN by the oracle (the same exploration runs, "
             "oracle only, when the translator rejects the source, and the failing-input search adds every pair x first hop refused and "
-            "every authenticated hop with a wrong secret). partial: channel reads, regex classification of prompts and real timeouts are observed at run time, not proved.",
+            "every authenticated hop with a wrong secret). Round 10: password situation 'the device asks, its enable secret is EMPTY, "
+            "auth_secondary empty' (fault emptypw, on every explored pair whose route has a password hop: a compliant device, "
+            "acquire_priv must arrive through the interactive escalation; model: c_secret = Some [], c_sec = []); histories "
+            "'table changed on a LIVE driver': driver and device built with a random tree T1, a level reached under T1, then "
+            "previous_priv of one or two levels edited in place or privilege_levels replaced by another random tree T2 over the same "
+            "levels (other dict order, other password levels), update_privilege_levels(), the device's CLI now T2's; a walk of "
+            "acquire_priv calls covering every ordered pair of T2, each call judged on its own against T2 and compared with run_calls "
+            "on T2 (order_ok ties the _priv_graph observed AFTER the update to T2's tree neighbours). partial: channel reads, regex classification of prompts and real timeouts are observed at run time, not proved.",
     "note": "Section hypotheses of nav_reaches (not axioms): depth function consistent with previous_priv (acyclic), common root, levels < |levels|, "
             "graph sets = tree neighbours in any order, classification contains the mode and is exact on levels that have a child (C05's concern; "
             "fed from the real _determine_current_priv in the correspondence runs and from 'identical pattern text' in the by-computation "
@@ -1436,6 +1554,10 @@ MANIFEST = {
             "crosses refused transitions with the two password situations 'right' / 'not asked' only. The history oracle stays out of the region 'the device's prompt is shared by "
             "several levels and the driver does not remember the right one' (C05 / the shared-prompt finding). When the translator rejects "
             "the source the exploration still runs, oracle only (tables from gen_privgraph.variants() or the drivers' level names, factor 2). "
+            "Table changed on a live driver: the model is given only the table in force (T2), the _priv_graph and prompt "
+            "classification observed after update_privilege_levels(), the level reached before; update_privilege_levels() itself is "
+            "not modelled (its result is checked by order_ok); T1 and T2 keep level names, patterns and commands (so the lru_cache "
+            "of _determine_current_priv stays valid - stale classification after a pattern change is outside these histories). "
             "Two known findings (known_findings.d/C04.json): auth_secondary typed as a command when no "
             "password is asked (mirrored by the model through the generated gen_stop flag; repaired on the C12 branch), and the shared-prompt "
             "refusal (acquire_priv returns normally in the wrong level).",
